@@ -107,8 +107,8 @@ def program_strategy():
         integers = lambda a, b: rnd.randint(a, b)
         pick = lambda seq: seq[rnd.randrange(len(seq))]
         booleans = lambda: rnd.random() < 0.5
-        family = pick(["tvector", "tvector", "tvector", "tmatrix", "tmatrix", "stensor", "stensor", "tensor", "st2tost2",
-                       "vector", "runtime_array", "fsarray"])
+        family = pick(["tvector", "tvector", "tvector", "tmatrix", "tmatrix", "tmatrix", "stensor", "stensor", "tensor",
+                       "st2tost2", "vector", "runtime_array", "fsarray"])
         if family in FLAT_OWNED_ONLY:
             shape = [family, integers(1, 8)]
         elif family == "tvector":
@@ -152,10 +152,11 @@ def program_strategy():
                 P["operands"].append(o)
                 return len(P["operands"]) - 1
             ks = ["strided", "map_ptr", "coalesced", "views_array", "map_tvec", "map_array", "owned"]
+            # the views that only exist for one family get a larger share (they are the narrowest code)
             if sh[0] == "tvector":
-                ks = ["column_view", "row_slice", "column_slice", "row_view", "slice"] + ks
+                ks = ["column_view", "row_slice", "column_slice", "column_slice", "row_view", "slice"] + ks
             if sh[0] == "tmatrix":
-                ks = ["submatrix_view", "submatrix_view"] + ks
+                ks = ["submatrix_view"] * 5 + ks
             kind = pick(kinds or ks)
             const = (not mutable) and booleans()
             o = {"shape": sh, "kind": kind, "const": const}
@@ -886,6 +887,8 @@ def main():
             if u.is_known(key):
                 u.fail("programs", key, describe(P) + " : " + v[2], P)
                 continue
+            if any(f["key"] == key for f in u.failures):
+                continue  # one (reduced) witness per failure class and run
             # confirm in isolation, reduce a little, record
             r = check_single(P)
             if r.ok:
@@ -896,18 +899,34 @@ def main():
             if r.ok:
                 Pm, r = P, check_single(P)
             u.fail("programs", r.key, r.msg, Pm)
-        if notrun:
-            v2, err = build_and_run(notrun, WORK, "tu%d_rest" % b)
-            if v2 is not None:
-                for i, P in enumerate(notrun):
-                    v = v2.get(i)
-                    cl, nt = classify(P)
-                    if v and v[0]:
-                        u.case("programs", P, nt, cl, sample=describe(P))
-                    elif v:
-                        r = check_single(P)
-                        if not r.ok:
-                            u.fail("programs", r.key, r.msg, P)
+        rounds = 0
+        while notrun and rounds < 6:
+            # a sanitizer abort ends the process: the programs behind it run in a further TU
+            rounds += 1
+            v2, err = build_and_run(notrun, WORK, "tu%d_rest%d" % (b, rounds))
+            if v2 is None:
+                broken.append("rest of translation unit %d does not compile: %s" % (b, err))
+                break
+            rest = []
+            for i, P in enumerate(notrun):
+                v = v2.get(i, "absent")
+                cl, nt = classify(P)
+                if v == "absent" or v is None:
+                    if v is None:
+                        rest.append(P)
+                    continue
+                if v[0]:
+                    u.case("programs", P, nt, cl, sample=describe(P))
+                else:
+                    key = program_key(P, v)
+                    if any(f["key"] == key for f in u.failures) or u.is_known(key):
+                        if u.is_known(key):
+                            u.fail("programs", key, describe(P) + " : " + v[2], P)
+                        continue  # same class already recorded in this run
+                    r = check_single(P)
+                    if not r.ok:
+                        u.fail("programs", r.key, r.msg, P)
+            notrun = rest
     u.extra["wall_s"] = round(time.time() - t0, 1)
     u.extra["cxx"] = " ".join(CXX)
     rcode = u.finish()
